@@ -38,12 +38,13 @@ theorem generated_upstream_is_input_record :
 
 
 
+
 -- BEGIN PINS (written by bin/mkpins; do not edit by hand)
 /-- the Go functions this property's model and obligations were written against have exactly the
 pinned skeletons (SHA-256 prefix of the atom list) -/
 theorem pinned_skeletons_c11 :
     pinsOk
-    [("Scipipe.#decls", "7633eb8a74616d59"),
+    [("Scipipe.#decls", "08e57e98702ecd70"),
      ("Scipipe.FileIP_AuditInfo", "5adb309a1fd92bb2"),
      ("Scipipe.FileIP_SetAuditInfo", "9888139e5f6ebe46"),
      ("Scipipe.FileIP_UnMarshalJSON", "53871f3581412391"),
